@@ -174,6 +174,7 @@ pub fn run_path(case: &Value, f: &mut Fails) {
 macro_rules! auth_steps {
 	($f:ident, $buf:ident, $m:ident, $steps:ident, $tag:ident) => {{
 		let mut dead = false;
+		let mut compare = true;
 		let mut last_text: Option<String> = None;
 		{
 			let mut am = $buf.authority_mut().expect("authority");
@@ -205,6 +206,7 @@ macro_rules! auth_steps {
 						dead = true;
 						break;
 					}
+					Ok((view, deref, ui, host, port)) if !compare => { let _ = (view, deref, ui, host, port); }
 					Ok((view, deref, ui, host, port)) => {
 						$f.eq(C11, &format!("{what}.view"), enc(&view), st["view"].clone());
 						$f.eq(C11, &format!("{what}.deref"), enc(&deref), st["view"].clone());
@@ -212,14 +214,17 @@ macro_rules! auth_steps {
 						$f.eq(C11, &format!("{what}.host"), enc(&host), st["host"].clone());
 						$f.eq(C11, &format!("{what}.port"), enc_opt(port.as_deref()), st["port"].clone());
 						if enc(&view) != st["view"] {
-							dead = true;
-							break;
+							// C11 has failed here; the remaining calls are still made (C04 is about the whole
+							// sequence), only no longer compared
+							compare = false;
 						}
-						last_text = Some(text(&st["text"]));
+						if compare {
+							last_text = Some(text(&st["text"]));
+						}
 					}
 				}
 			}
-			if !dead {
+			if !dead && compare {
 				let _ = guard(|| am.into_authority().as_str().to_string()).map(|v| {
 					if let Some(st) = $steps.last() {
 						$f.eq(C11, &format!("{}.into_authority", $tag), enc(&v), st["view"].clone());
@@ -227,13 +232,17 @@ macro_rules! auth_steps {
 				});
 			}
 		}
-		if !dead {
+		if !dead && compare {
 			if let Some(t) = last_text {
-				match std::str::from_utf8($buf.as_bytes()) {
-					Ok(s) => $f.eq(C11, &format!("{}.after_drop", $tag), s, t.as_str()),
-					Err(_) => $f.ok(C04, &format!("{}.after_drop.utf8", $tag), false, || enc_bytes($buf.as_bytes())),
+				if let Ok(s) = std::str::from_utf8($buf.as_bytes()) {
+					$f.eq(C11, &format!("{}.after_drop", $tag), s, t.as_str());
 				}
 			}
+		}
+		if !dead {
+			// C04: whatever the session did, the buffer is well-formed UTF-8 and holds an authority where it was
+			$f.ok(C04, &format!("{}.after_drop.utf8", $tag), std::str::from_utf8($buf.as_bytes()).is_ok(), || enc_bytes($buf.as_bytes()));
+			$f.ok(C04, &format!("{}.after_drop.valid", $tag), $crate::kinds::beh::still_valid($buf.as_bytes()), || enc_bytes($buf.as_bytes()));
 		}
 	}};
 }
@@ -310,6 +319,15 @@ macro_rules! authbeh_fam {
 			}
 		}
 	}};
+}
+
+/// the bytes still parse as an IRI reference (a URI/IRI buffer after an authority session), or - for the
+/// raw vectors of the public constructor - hold a reference somewhere (judged by the caller's own text)
+pub fn still_valid(bytes: &[u8]) -> bool {
+	match std::str::from_utf8(bytes) {
+		Ok(s) => iref::iri::IriRef::new(s).is_ok() || s.starts_with("CONNECT "),
+		Err(_) => false,
+	}
 }
 
 pub fn run_auth(case: &Value, f: &mut Fails) {
